@@ -587,14 +587,21 @@ func (vc *VC) indexAddr(f *Frame, n *Node, in *ssa.IndexAddr) *SV {
 	case *types.Slice:
 		vc.oblige("index", "index out of range"+f.where(in), n.Reach, app("bvult", i, x.C[2]), "@nopanic")
 		es := size(u.Elem())
-		idx := bvAdd(x.C[1], scale(i, es))
+		if es > 1 && es&(es-1) != 0 {
+			// multi-cell elements: 0 <= i < len < 2^40 gives 0 <= i*es and i*es + es <= len*es without
+			// overflow - an arithmetic fact the bit-level solvers are slow to find on their own
+			vc.emit(";ARITH (assert " + implies(n.Reach, and(app("bvsle", bvLit(64, 0), vc.scaleReg(i, es)),
+				app("bvsle", bvAdd(vc.scaleReg(i, es), bvLit(64, int64(es))), vc.scaleReg(x.C[2], es)),
+				app("bvslt", vc.scaleReg(x.C[2], es), bvLit(64, 1<<50)))) + ")")
+		}
+		idx := bvAdd(x.C[1], vc.scaleReg(i, es))
 		return &SV{T: in.Type(), C: []string{x.C[0], vc.defS(SBV64, idx, in.Name())}, NonNil: true}
 	case *types.Pointer:
 		arr := u.Elem().Underlying().(*types.Array)
 		vc.nilCheck(f, n, in, x)
 		vc.oblige("index", "index out of range"+f.where(in), n.Reach, app("bvult", i, bvLit(64, arr.Len())), "@nopanic")
 		es := size(arr.Elem())
-		idx := bvAdd(x.C[1], scale(i, es))
+		idx := bvAdd(x.C[1], vc.scaleReg(i, es))
 		return &SV{T: in.Type(), C: []string{x.C[0], vc.defS(SBV64, idx, in.Name())}, NonNil: true}
 	}
 	panic(unsupported("IndexAddr on " + in.X.Type().String()))
@@ -602,6 +609,61 @@ func (vc *VC) indexAddr(f *Frame, n *Node, in *ssa.IndexAddr) *SV {
 
 func scale(i string, k int) string {
 	return bvMul(i, bvLit(64, int64(k)))
+}
+
+// scaleReg gives i*k (cell offset of element i for elements of k cells). For symbolic i and k not
+// a power of two the product is the uninterpreted function sclK(i) in proof queries - 64-bit
+// multipliers make the bit-level solvers very slow on otherwise trivial goals - constrained by
+// theorems of machine multiplication for 0 <= a, b < 2^40 and k < 2^20 (no overflow):
+//   0 <= a*k < 2^60;   a < b  =>  a*k + k <= b*k;   b == a+1  =>  b*k == a*k + k.
+// The discharger also runs every such query with the exact definition (and without the facts),
+// accepts unsat from either and sat only from the exact one; cover queries are always exact.
+func (vc *VC) scaleReg(i string, k int) string {
+	if k <= 1 || k&(k-1) == 0 || k >= 1<<20 {
+		return scale(i, k)
+	}
+	if _, _, ok := litVal(i); ok {
+		return scale(i, k)
+	}
+	fn := fmt.Sprintf("scl%d", k)
+	if !vc.eng.declared(vc, "uf:"+fn) {
+		nc := len(vc.hdrCover)
+		vc.emitHeader(fmt.Sprintf("(declare-fun %s ((_ BitVec 64)) (_ BitVec 64))", fn))
+		vc.hdrCover = append(vc.hdrCover[:nc], fmt.Sprintf("(define-fun %s ((x!q (_ BitVec 64))) (_ BitVec 64) (bvmul x!q %s))", fn, bvLit(64, int64(k))))
+		vc.note("element offsets i*k for k-cell elements (k not a power of two) are uninterpreted in proof queries, constrained by order/successor theorems; every such query is also tried with exact multiplication")
+	}
+	t := app(fn, i)
+	for _, b := range vc.bound {
+		if strings.Contains(i, b) {
+			return t
+		}
+	}
+	if vc.scaled == nil {
+		vc.scaled = map[int][]string{}
+	}
+	for _, p := range vc.scaled[k] {
+		if p == i {
+			return t
+		}
+	}
+	if len(vc.scaled[k]) >= 24 {
+		return t
+	}
+	lim := bvLit(64, 1<<40)
+	kk := bvLit(64, int64(k))
+	opt := func(t string) { vc.emit(";ARITH (assert " + t + ")") }
+	opt(implies(and(app("bvsle", bvLit(64, 0), i), app("bvslt", i, lim)), and(app("bvsle", bvLit(64, 0), t), app("bvslt", t, bvLit(64, 1<<60)))))
+	opt(implies(eq(i, bvLit(64, 0)), eq(t, bvLit(64, 0))))
+	for _, p := range vc.scaled[k] {
+		tp := app(fn, p)
+		opt(implies(and(app("bvsle", bvLit(64, 0), p), app("bvslt", p, i), app("bvslt", i, lim)), app("bvsle", bvAdd(tp, kk), t)))
+		opt(implies(and(app("bvsle", bvLit(64, 0), i), app("bvslt", i, p), app("bvslt", p, lim)), app("bvsle", bvAdd(t, kk), tp)))
+		opt(implies(eq(i, p), eq(t, tp)))
+		opt(implies(eq(i, bvAdd(p, bvLit(64, 1))), eq(t, bvAdd(tp, kk))))
+		opt(implies(eq(p, bvAdd(i, bvLit(64, 1))), eq(tp, bvAdd(t, kk))))
+	}
+	vc.scaled[k] = append(vc.scaled[k], i)
+	return t
 }
 
 func (vc *VC) indexValue(f *Frame, n *Node, in *ssa.Index) *SV {
@@ -669,7 +731,7 @@ func (vc *VC) slice(f *Frame, n *Node, in *ssa.Slice) *SV {
 		goal = "true"
 	}
 	vc.oblige("slice-bounds", "slice bounds out of range"+f.where(in), n.Reach, goal, "@nopanic")
-	noff := vc.defS(SBV64, bvAdd(off, scale(lo, es)), "off")
+	noff := vc.defS(SBV64, bvAdd(off, vc.scaleReg(lo, es)), "off")
 	nlen := vc.defS(SBV64, bvSub(hi, lo), "len")
 	if isStr {
 		return &SV{T: in.Type(), C: []string{base, noff, nlen}}
